@@ -37,16 +37,16 @@ CHECKS = {
  "C17": dict(engine="e1", technique="exhaustive enumeration of all strings over a 12-symbol grapheme-relevant alphabet up to a length bound x 7 constructors x every slice range against unicode-segmentation",
    text="Every string of up to 5 (thorough 6) code points over ASCII, CR, LF, precomposed, combining mark, ZWJ, emoji, regional indicator, Hangul jamo and a prepend character is converted by every constructor and compared with one-char-per-extended-grapheme-cluster content, representation choice, length, indexing, iteration both ways, Display and every slice/slice_u32 range on borrowed and owned types.",
    note="unicode-segmentation is the trusted definition of grapheme clusters; bounded length."),
- "C11": dict(engine="e1", technique="exhaustive enumeration of push/extend histories (honest and lying iterators, panicking callbacks) on the real lock-free vector against a content model, a drop log and a counting allocator; plus exhaustive handle/restart/drop histories of the real Nucleo under the controlled scheduler with destruction bookkeeping",
+ "C11": dict(engine="e1", technique="exhaustive enumeration of push/extend histories (honest and lying iterators, panicking callbacks) on the real lock-free vector against a content model, a drop log and a counting allocator (drop-logging and plain item types); loom exploration of concurrent writers with drop accounting; plus exhaustive handle/restart/drop histories of the real Nucleo under the controlled scheduler with destruction bookkeeping",
    text="Every history of up to 3 (thorough 4) operations over a 12-operation alphabet from 18 start states (capacity x prefill just before a bucket boundary x columns) runs on the real vector through the cfg-gated facade; after every operation the content (get, snapshot iteration, count) is compared with a reference model and the drop log is checked (nothing reachable dropped, every unpublished item dropped exactly once); after dropping the vector every item must have been dropped exactly once and every column allocation freed exactly once (thread-local counting allocator with quarantine, so double frees are detected instead of corrupting the heap).",
    note="Vector level: sequential histories with a counting allocator for the column storage. Front end (real Nucleo under the controlled scheduler): every history of up to 4 (thorough 5) operations over {take, clone, drop x2, restart(true/false), push x2, tick, drop-matcher} plus scenarios with an injector thread that outlives restarts and the matcher; after every operation no item of a stream with a live injector or of the matcher's current stream may have been destroyed, at the end every injected item must have been destroyed exactly once. Leaked partially filled columns of a panicking callback are tolerated as the statement allows."),
  "C18": dict(engine="e1", technique="exhaustive enumeration of all small inputs, every length x deterministic shape family (including a quicksort-killer adversary), and every comparator-call index as cancel moment, on the real par_quicksort",
    text="All key sequences over 4 keys up to length 9 and all permutations up to length 8; 23 shapes at every length 0..=2600, 4000..=4100 and larger lengths, including inputs produced by running the real sort against McIlroy's adversary (they drive it through break_patterns into heapsort; long ones run in a child process so a stack overflow is reported, not suffered); for three lengths x four shapes the cancel flag is raised at EVERY comparator call index; outputs are checked to be permutations, sorted when 'not cancelled' is reported, never 'cancelled' without the flag; the worker's total order gives the identical result for 1/2/4/8 threads.",
    note="Large lengths are exhaustive in length x shape, not over all inputs (exhaustive=false); multi-thread runs are repeated runs under rayon's own scheduling (labelled); per-routine entry counters show that every branch of the sort was executed."),
- "C08": dict(engine="e3", technique="loom: exhaustive exploration (DPOR, C11 memory model) of the real boxcar.rs under a linearizability/value oracle, 2-3 threads; plus exhaustive enumeration of sequential push/extend histories (lying iterators) against a content model",
+ "C08": dict(engine="e3", technique="loom: exhaustive exploration (DPOR, C11 memory model) of the real boxcar.rs under a linearizability/value oracle, 2-3 threads; plus exhaustive enumeration of sequential push/extend histories (lying iterators) against a content model, of vector layouts x snapshot / par_snapshot starts, and of reservations beyond the index space",
    text="The unmodified boxcar.rs is compiled into a loom harness (its atomics resolve to shims over loom's); for each body (push,push || push+announce || reader; prefill to a bucket boundary then push || extend || snapshot reader, also with an over-reporting iterator; two extends racing to allocate one bucket; capacities 0/1/40, 1-2 columns) loom enumerates every execution its memory model admits (quick: preemption bound 3 where stated, thorough: unbounded or bound 4) and each execution is judged: indices distinct and gap-free, every lookup None or a complete item of the owning push (value and all columns), completed pushes visible to every happens-after lookup forever at the same index, count monotone and >= completed pushes, snapshot iterator consecutive.",
    note="Bounded to 3 threads and 1-3 operations each; bodies with a preemption bound are exhaustive only up to that bound (reported); explored with payload tracking off so that the value oracle, not the race detector, decides."),
- "C09": dict(engine="e3", technique="loom: exhaustive exploration of the real boxcar.rs with happens-before tracking of every payload cell and of bucket initialisation",
+ "C09": dict(engine="e3", technique="loom: exhaustive exploration of the real boxcar.rs with happens-before tracking of every payload cell, of bucket and flag initialisation; plus scheduler monitors (one scratch per pool thread, runs never overlap, no unchecked access to an unpublished item) over every explored schedule of the front end",
    text="Same bodies as C08 with tracking on: every slot/column access through UnsafeCell::get() and every use of a bucket's flag array is reported to a per-address loom cell, so any pair of accesses not ordered by the executed atomics with their declared orderings fails the execution - under the C11 model, not the host hardware; the final drop of the vector is included. The parts of the statement outside boxcar.rs (worker result list, matcher scratch) are reachable only through Arc<Mutex<Worker>> guards in safe code; in addition the check runs the controlled-scheduler scenarios with two worker threads and judges every execution with two monitors: background runs never overlap, and every matcher scratch slot is used by exactly one pool thread (and never from outside the pool).",
    note="loom cannot execute parking_lot/rayon, so worker.rs/lib.rs are not explored at memory-model level (type-system argument + SC monitors); column reads through raw pointers are covered by the C08 value oracle rather than by tracking."),
  "C06": dict(engine="e2", technique=E2T+"; snapshot-consistency monitors after every tick",
@@ -64,7 +64,7 @@ CHECKS = {
  "C19": dict(engine="e2", technique=E2T+"; status monitors on every tick",
    text="On every tick of the C06 scenario families: changed=false implies an identical view (matches, items, count, pattern); running=false implies every push of the current stream that returned before the tick began is counted and the snapshot pattern is the current pattern.",
    note="Same engine assumptions as C06."),
- "C20": dict(engine="e2", technique="exhaustive enumeration of handle histories (injector/clone/drop/restart/push/tick, tick branching on timeout vs completion) on the real Nucleo against a handle-count model",
+ "C20": dict(engine="e2", technique="exhaustive enumeration of handle histories (injector/clone/drop/restart/push/pattern edit/tick, tick branching on timeout vs completion) on the real Nucleo against a handle-count model, plus preemption-bounded schedules of short scripts that read the count in the middle of a run",
    text="Every history of up to 5 (thorough 6) operations over {take, clone, drop x2, restart(true), restart(false), push, tick}; after every operation active_injectors() must equal the number of live handles created for the current stream.",
    note="Bounded depth; at most two tracked handle slots are cloned/dropped."),
 }
